@@ -43,4 +43,10 @@ CLAIMED = {
         "note": "Trusted: Lean kernel, translator (C11 tables), correspondence harness; serde header parsing as a table computed by the library; signature schemes unproved (parameter V); JSON envelope by correspondence.",
         "technique": "Lean 4 proof (shape + injectivity, base64url bijection) + correspondence with a recording verifier",
     },
+    "C06": {
+        "text": "Lean 4 theorems (legacy-detection prefixes, data-URL prefix and type name regenerated from bitmap.rs; roaring+zlib an abstract codec with the two stated hypotheses): an encoded bitmap decodes back to the same set through the endpoint and through the typed service (base64url proved a canonical bijection; every stream starting 78 9C encodes to text the regenerated detection treats as new format); the legacy form Base64(Base64Url(zlib)) still decodes; revoke/unrevoke batches change membership of exactly the listed indices (any batch sequence, by induction; untouched indices keep their status); an update through the service re-encodes to something that decodes to the updated set; check_status reports revoked IFF (not SkipAll, bitmap type, index property = every index query, issuer found, id is a DID URL, service decodes, index is a member).",
+        "design_ref": "DESIGN.md §7.6",
+        "note": "Trusted: Lean kernel, translator, correspondence harness; roaring/flate2 assumed (hypotheses exercised on every run); Url/serde glue by correspondence.",
+        "technique": "Lean 4 proof over regenerated constants (abstract codec hypotheses) + correspondence with codec fact tables",
+    },
 }
